@@ -58,6 +58,9 @@ func resetScenario(c *caseOut, h *History, cfg config.Blockchain, sr *subjectRun
 		return
 	}
 	c.cnt.count("reset:runs")
+	if cfg.RemoveUntraceableBlocks {
+		c.cnt.count("reset:runs-on-remove-untraceable-blocks-node") // headers-only: target = current height
+	}
 	c.cnt.add("reset:batches", len(bs)-b0)
 	c.cnt.count("reset:removed-blocks-" + bucket(int(cur-target)))
 	dbb := fold(bs, b0)
